@@ -6,7 +6,7 @@ HARNESS_TIMEOUT = {'quick': 900, 'thorough': 7200}
 
 # files whose failure means the executable model itself does not build
 MODEL_FILES = ['theories/Base.v', 'theories/Lines.v', 'theories/Lifecycle.v', 'theories/Regex.v', 'theories/Claims.v',
-               'theories/Obs.v', 'theories/CaseClaims.v', 'theories/RunC14.v', 'theories/RunHist.v', 'theories/RunCodec.v', 'theories/Cbor.v', 'theories/Utf8.v', 'theories/Tags.v', 'theories/Wire.v', 'theories/Codec.v', 'theories/Run.v', 'gen/GenTags.v', 'spec/SpecTags.v', 'spec/SpecTables.v', 'gen/GenConsts.v']
+               'theories/Obs.v', 'theories/CaseClaims.v', 'theories/RunC14.v', 'theories/RunHist.v', 'theories/RunCodec.v', 'theories/RunEv.v', 'theories/RunCose.v', 'theories/Evidence.v', 'theories/Gates.v', 'theories/Cose.v', 'theories/Cbor.v', 'theories/Utf8.v', 'theories/Tags.v', 'theories/Wire.v', 'theories/Codec.v', 'theories/Run.v', 'gen/GenTags.v', 'spec/SpecTags.v', 'spec/SpecTables.v', 'gen/GenConsts.v']
 
 TRUSTED_BASE = [
     'Coq 8.16.1 kernel (coqc; vm_compute used in tie obligations; no native_compute)',
@@ -142,7 +142,20 @@ def _c04_signature(v):
 WIRE_CONE = CLAIMS_CONE + ['theories/CborProofs.v', 'theories/WireProofs.v', 'theories/CodecProofs.v', 'theories/FormatProofs.v', 'ties/TieTags.v']
 EV_CONE = WIRE_CONE + ['theories/EvidenceProofs.v']
 
+COSE_CONE = ['theories/CborProofs.v', 'theories/CoseProofs.v', 'ties/TieTags.v', 'ties/TieConsts.v']
+
 PROPS = {
+    'C02': dict(
+        cone=COSE_CONE, level='proof', kernel_maxlen=2500,
+        nontrivial=lambda i, o: i.split(' ')[3] != i.split(' ')[4], classify=lambda i, o: o,
+        rule='tokens signed with five real keys (ES256 x2, ES384, EdDSA, PS256) for claims-sets of both profiles: every single-bit flip (quick: a third of the bytes plus the head region; thorough: all), truncation at ~60 offsets, every splice of payload / protected header / signature between any two tokens (verified with either key), signature replaced by random bytes / emptied, payload or protected header emptied or nil, random multi-byte edits, verification with each of the five keys; observed: DecodeEvidenceFromCOSE result and Verify result, compared with the model rule "verifies iff decodes and (protected, payload, signature) are the signed ones and the key is the signer\'s"; non-trivial = token differs from the original',
+        assumptions=['unforgeability: the ideal-signature hypothesis sig_ideal is a premise of the theorems; Go crypto/* and go-cose verifiers are trusted'],
+    ),
+    'C20': dict(
+        cone=COSE_CONE, level='proof', kernel_maxlen=3000,
+        nontrivial=lambda i, o: not o.startswith('ok'), classify=lambda i, o: o.split(' ')[0],
+        rule='envelopes assembled by an independent CBOR writer: every tag 0..30 and none, other tags, nested tags, non-preferred tag/array heads, indefinite array, array lengths 0..6, each of the four elements replaced by 24 other items (null, undefined, integers, empty / non-map byte strings, texts, arrays, maps, floats, tagged, indefinite, non-preferred, header maps with extra or text-valued parameters), payload wrapped / double-wrapped / tagged / with trailing byte / truncated / non-map / unknown profile, trailing bytes and second token appended, truncations, COSE_Mac0 / COSE_Sign / COSE_Mac shapes and the TF-M vectors of the repository, random single-byte substitutions; non-trivial = rejected',
+    ),
     'C03': dict(
         cone=EV_CONE, level='proof', kernel_maxlen=9000,
         nontrivial=lambda i, o: True, classify=lambda i, o: 'key=%s P%s %s' % (i.split(' ')[1], i.split(' ')[2], o.split(' ')[0]),
